@@ -23,7 +23,8 @@ def parse_timezone(s: str) -> datetime.timezone:
         minutes = int(match.group(3))
         return datetime.timezone(
             datetime.timedelta(
-                hours=hours, minutes=minutes if hours >= 0 else -minutes
+                hours=hours,
+                minutes=-minutes if match.group(2)[0] == "-" else minutes,
             )
         )
     else:
